@@ -9,7 +9,7 @@ if [ ! -x $T ] || [ -n "$(find $V/translator -name '*.go' -newer $T)" ]; then
   (cd $V/translator && go build -o $T .) 1>&2
 fi
 mkdir -p $V/.build/gen
-$T -repo /repo -out $V/.build/gen 1>&2
+$T -repo ${VERIF_REPO:-/repo} -out $V/.build/gen 1>&2
 # only touch the .v files when their content changed (keeps make incremental)
 for f in handlers perms nondet genesis kernels; do
   if ! cmp -s $V/.build/gen/$f.v $V/coq/Gen/$f.v; then cp $V/.build/gen/$f.v $V/coq/Gen/$f.v; fi
